@@ -22,6 +22,37 @@ Proof.
   intros H. inversion H; subst. eapply scan_decimal_nonneg; [|exact E]. lia.
 Qed.
 
+(* scanBlank stops in front of something it would not skip, so running it again changes nothing *)
+Lemma blank_head_full x p : forall md c t, blank x md p = POk (c :: t) ->
+  x && is_space c = false /\ x && (c =? 35) = false /\ (c =? 40) && starts_qhash t = false.
+Proof.
+  induction p as [|a p IH]; intros md c t H; cbn [blank] in H.
+  - destruct md; discriminate.
+  - destruct md.
+    + destruct (x && is_space a) eqn:E1; [exact (IH _ _ _ H)|].
+      destruct (x && (a =? 35)) eqn:E2; [exact (IH _ _ _ H)|].
+      destruct ((a =? 40) && starts_qhash p) eqn:E3; [exact (IH _ _ _ H)|].
+      inversion H; subst. auto.
+    + destruct (a =? 10) eqn:E10.
+      * destruct (is_space 10) eqn:Es; [exact (IH _ _ _ H)|].
+        inversion H; subst. assert (c = 10) by lia. subst c. rewrite Es.
+        split; [apply andb_false_r | split; [destruct x; reflexivity | reflexivity]].
+      * exact (IH _ _ _ H).
+    + destruct (a =? 41); exact (IH _ _ _ H).
+Qed.
+
+Lemma blank_idem x md p q : blank x md p = POk q -> blank x BNorm q = POk q.
+Proof.
+  intros H. destruct q as [|c t]; [reflexivity|].
+  destruct (blank_head_full x p md c t H) as [H1 [H2 H3]]. cbn [blank]. rewrite H1, H2, H3. reflexivity.
+Qed.
+
+Lemma take_run_nil_head o c t : take_run o (c :: t) = ([], c :: t) -> is_stopper o c = true.
+Proof. intros H. eapply take_run_stop. exact H. Qed.
+
+Lemma take_run_len o p run p1 : take_run o p = (run, p1) -> length p = (length run + length p1)%nat.
+Proof. intros H. apply take_run_app in H. subst. apply app_length. Qed.
+
 Lemma skipn_le {A} k (q : list A) : (length (skipn k q) <= length q)%nat.
 Proof. rewrite skipn_length. lia. Qed.
 
@@ -682,6 +713,127 @@ Proof.
   destruct (useS o); [apply mk_node_set_ok|].
   destruct (useE o); [apply mk_node_set_ok|].
   apply mk_node_ch_ok; try reflexivity. tnum. lia.
+Qed.
+
+(* ---------------------------------------------------------------- one round, the loop, scanRegex *)
+Lemma round_res_weaken r n m : round_res r n -> (n <= m)%nat -> round_res r m.
+Proof.
+  destruct r as [[st' [[q wq]|]]|e q| | |]; cbn [round_res]; intros H L; auto.
+  destruct H as [H1 [H2 H3]]. split; [exact H1 | split; [exact H2 | lia]].
+Qed.
+
+Lemma minv_add_run st st1 : minv st -> mbody st1 -> same_nest st st1 -> minv st1.
+Proof. apply minv_same. Qed.
+
+Lemma scan_round_ok tb mco st p wasq : minv st -> ms_unit st = None -> p <> [] ->
+  round_res (scan_round tb mco st p wasq) (pred (length p)).
+Proof.
+  intros Iv Hu Hp. unfold Parser.scan_round.
+  pose proof (scan_blank_full_adv (ms_o st) p) as B0.
+  destruct (scan_blank_full (ms_o st) p) as [p0|e q| | |] eqn:E0; cbn [pbind padv0 round_res] in *; try contradiction; try exact I.
+  destruct (take_run (ms_o st) p0) as [run p1] eqn:Er.
+  pose proof (take_run_len _ _ _ _ Er) as Lr.
+  pose proof (scan_blank_full_adv (ms_o st) p1) as B1.
+  destruct (scan_blank_full (ms_o st) p1) as [p2|e q| | |] eqn:E1; cbn [pbind padv0 round_res] in *; try contradiction; try exact I.
+  destruct p2 as [|ch p3].
+  { (* the end of the pattern *)
+    pose proof (add_run_ok st run false (proj1 Iv) Hu) as A.
+    destruct (add_run st run false) as [st1| | | |]; cbn [pbind round_res]; try contradiction; try exact I.
+    destruct A as [A1 [A2 _]]. eapply minv_same; [exact Iv | exact A1 | exact A2]. }
+  cbn [length] in B1.
+  destruct (negb (is_special ch)) eqn:Esp.
+  { (* an ordinary character after blanks: the round must have moved *)
+    pose proof (add_run_ok st run false (proj1 Iv) Hu) as A.
+    destruct (add_run st run false) as [st1| | | |]; cbn [pbind round_res]; try contradiction; try exact I.
+    destruct A as [A1 [A2 [A3 _]]].
+    split; [eapply minv_same; [exact Iv | exact A1 | exact A2]|].
+    split; [destruct (ms_unit st1); [destruct (A3 ltac:(discriminate)) as [_ F]; discriminate | reflexivity]|].
+    cbn [length].
+    destruct run as [|r0 run'].
+    - (* nothing taken: the character in front is a stopper that is not special, i.e. a blank, which scanBlank skips *)
+      exfalso. cbn [length] in Lr.
+      assert (p1 = p0) by (pose proof (take_run_app _ _ _ _ Er) as Ea; cbn [app] in Ea; congruence). subst p1.
+      unfold scan_blank_full in E0, E1. rewrite (blank_idem _ _ _ _ E0) in E1. inversion E1; subst p0.
+      pose proof (take_run_nil_head _ _ _ Er) as St.
+      destruct (blank_head_full _ _ _ _ _ E0) as [H1 [H2 _]].
+      unfold is_stopper in St. destruct (useX (ms_o st)); [|rewrite St in Esp; discriminate].
+      destruct (stopper_not_special_is_blank ch St ltac:(destruct (is_special ch); [discriminate | reflexivity])) as [S|S].
+      + rewrite S in H1. discriminate.
+      + subst ch. discriminate.
+    - cbn [length] in Lr. lia. }
+  (* a special character *)
+  assert (Lp3 : (length p3 <= pred (length p))%nat) by lia.
+  pose proof (add_run_ok st run (is_quantifier ch) (proj1 Iv) Hu) as A.
+  destruct (add_run st run (is_quantifier ch)) as [st1| | | |] eqn:Ea; cbn [pbind round_res]; try contradiction; try exact I.
+  destruct A as [A1 [A2 [A3 A4]]].
+  assert (I1 : minv st1) by (eapply minv_same; [exact Iv | exact A1 | exact A2]).
+  assert (NQ : is_quantifier ch = false -> ms_unit st1 = None).
+  { intros Hq. destruct (ms_unit st1); [|reflexivity]. destruct (A3 ltac:(discriminate)) as [_ F]. congruence. }
+  destruct (ch =? 91) eqn:C1.
+  { pose proof (cs_scan_adv is_word_char to_lower simple_fold participates cat_in cat_name (S (length p3)) false (ms_o st) p3 ltac:(lia)) as CS.
+    destruct (cs_scan (S (length p3)) false (ms_o st) p3) as [[syn q]|e q| | |]; cbn [pbind padv round_res] in *; try contradiction; try exact I.
+    pose proof (class_node_ok (ms_o st) syn) as CN.
+    destruct (class_node (ms_o st) syn) as [x| | | |]; cbn [pbind round_res]; try contradiction; try exact I.
+    apply unit_then_ok; [exact I1 | exact CN | lia]. }
+  destruct (ch =? 40) eqn:C2.
+  { eapply round_res_weaken; [apply round_open_ok; [exact I1|] | exact Lp3].
+    apply NQ. assert (ch = 40) by lia. subst ch. reflexivity. }
+  destruct (ch =? 124) eqn:C3.
+  { destruct (add_alternate_ok st1 (proj1 I1)) as [st2 [E2 [B2 [N2 U2]]]]. rewrite E2. cbn [pbind round_res].
+    split; [eapply minv_same; [exact I1 | exact B2 | exact N2]|].
+    split; [rewrite U2; apply NQ; assert (ch = 124) by lia; subst ch; reflexivity | exact Lp3]. }
+  destruct (ch =? 41) eqn:C4.
+  { eapply round_res_weaken; [apply round_close_ok; exact I1 | exact Lp3]. }
+  destruct (ch =? 92) eqn:C5.
+  { pose proof (scan_backslash_full_badv false tb (ms_o st) p3) as SB.
+    destruct (scan_backslash_full false tb (ms_o st) p3) as [[b q]|e q| | |]; cbn [pbind badv round_res] in *; try contradiction; try exact I.
+    destruct SB as [S1 [S2 S3]].
+    destruct b as [x|]; [|exfalso; apply (S3 eq_refl); reflexivity].
+    cbn [pbind]. apply unit_then_ok; [exact I1 | exact S2 | lia]. }
+  destruct ((ch =? 94) || (ch =? 36) || (ch =? 46)) eqn:C6.
+  { pose proof (simple_unit_ok (ms_o st) ch) as SU.
+    destruct (simple_unit (ms_o st) ch) as [x| | | |]; cbn [pbind round_res]; try contradiction; try exact I.
+    apply unit_then_ok; [exact I1 | exact SU | exact Lp3]. }
+  destruct ((ch =? 123) || (ch =? 42) || (ch =? 43) || (ch =? 63)) eqn:C7; [|exact I].
+  destruct (ms_unit st1) as [u|] eqn:Eu; [|exact I].
+  destruct (A3 ltac:(discriminate)) as [Hrun _].
+  pose proof (after_unit_ok st1 (ch :: p3) (proj1 I1) ltac:(congruence)) as AU.
+  destruct (after_unit st1 (ch :: p3)) as [[[st' q'] wq]|e q0| | |]; cbn [pbind round_res]; try contradiction; try exact I.
+  destruct AU as [U1 [U2 [U3 U4]]].
+  split; [eapply minv_same; [exact I1 | exact U1 | exact U3]|]. split; [exact U2|].
+  cbn [length] in U4. destruct run as [|r0 run']; [congruence|]. cbn [length] in Lr. lia.
+Qed.
+
+Lemma scan_loop_full_ok tb mco fuel : forall st p wasq, minv st -> ms_unit st = None -> (length p < fuel)%nat ->
+  match scan_loop_full fuel tb mco st p wasq with
+  | POk st' => minv st'
+  | PE _ _ | PO => True
+  | _ => False
+  end.
+Proof.
+  induction fuel as [|f IH]; intros st p wasq Iv Hu Hf; [lia|].
+  cbn [Parser.scan_loop_full]. destruct p as [|c p']; [exact Iv|].
+  pose proof (scan_round_ok tb mco st (c :: p') wasq Iv Hu ltac:(discriminate)) as R.
+  destruct (scan_round tb mco st (c :: p') wasq) as [[st' [[q wq]|]]|e q| | |]; cbn [pbind round_res] in *; try contradiction; try exact I.
+  - destruct R as [R1 [R2 R3]]. apply IH; [exact R1 | exact R2 | cbn [length] in *; lia].
+  - exact R.
+Qed.
+
+Lemma scan_regex_ok tb mco o p : psafe (scan_regex tb mco o p).
+Proof.
+  unfold Parser.scan_regex.
+  set (st0 := mkMS [] (mk_node_mn T_Capture o 0 (-1)) (mk_node T_Alternate o) (mk_node T_Concatenate o) None o [] false 1).
+  assert (I0 : minv st0).
+  { split; [|reflexivity]. constructor; cbn; auto.
+    - split; [constructor | reflexivity].
+    - split; [constructor | reflexivity].
+    - split; [constructor | reflexivity]. }
+  pose proof (scan_loop_full_ok tb mco (S (length p)) st0 p false I0 eq_refl ltac:(lia)) as L.
+  destruct (scan_loop_full (S (length p)) tb mco st0 p false) as [st| | | |]; cbn [pbind psafe]; try contradiction; try exact I.
+  destruct (ms_stack st); [|exact I].
+  pose proof (add_group_ok st (proj1 L)) as A.
+  destruct (add_group st) as [st'| | | |]; cbn [pbind psafe]; try contradiction; try exact I.
+  destruct A as [_ [_ U]]. destruct (ms_unit st'); [exact I | congruence].
 Qed.
 
 End Main.
